@@ -15,3 +15,12 @@ StateTuple negative_siblings_by_position(const StateTuple &children, std::size_t
   r.insert(r.end(), children.begin() + index + 1, children.end());
   return r;
 }
+bool positive_same_tuple_positions(const StateTuple &children, std::size_t index) {
+  for (std::size_t i = 0; i < index; ++i) {
+    if (children[i] == children[index]) { return false; }
+  }
+  return true;
+}
+bool negative_two_tuples_same_position(const StateTuple &a, const StateTuple &b, std::size_t i) {
+  return a[i] == b[i];
+}
